@@ -16,7 +16,9 @@ MANIFEST = dict(
          "rejection is a raise controlled by the matching test; the empty-selection rejection of extract/remove is reached on every way "
          "to the allocation and is controlled by a test that depends on both the request and the array's field names (dependence "
          "analysis of the raise guards); a field position looked up by name is never used as a found/not-found flag (position 0 is the "
-         "first field); the returned array is fresh (alias analysis: it shares no buffer with "
+         "first field); no entry of the new descriptor is rebuilt from a field view (arr[name].dtype / .shape) or cut to (name, type), "
+         "which loses the sub-array shape for some array dimensionality; combine_fields' rejection of arrays of different length compares "
+         ".shape, not a quantity arrays of different length can share (.size, .ndim, one axis); the returned array is fresh (alias analysis: it shares no buffer with "
          "any argument).",
     note="Not decided: element-wise equality (numpy field assignment trusted), rejection of a shared name (delegated to numpy.dtype "
          "construction, a trusted idiom). remove_fields documents only scalar/list names; tuple/array name lists are an observation.",
@@ -30,7 +32,7 @@ NU = "esutil.numpy_util."
 # rules that keep their verdict however the code is laid out (decided on the symbolic values below and on the effect analysis);
 # every other rule of this check is a template rule (vcheck.core.Check.obt): it is evaluated on the same values but a mismatch
 # in a restructured function is "not recognised", not a violation
-SEMANTIC = ('R07.alloc', 'R07.args', 'R07.copier', 'R07.defaults', 'R07.fresh', 'R07.nonempty', 'R07.lookup')
+SEMANTIC = ('R07.alloc', 'R07.args', 'R07.copier', 'R07.defaults', 'R07.fresh', 'R07.nonempty', 'R07.lookup', 'R07.entry', 'R07.samelen')
 
 
 # --------------------------------------------------------------------------------------------------------------------
@@ -1340,6 +1342,65 @@ def _copies(it):
     return out
 
 
+_CONST_SLICE = frozenset("0123456789-: ")
+_STR_EDITS = ("replace", "lstrip", "rstrip", "strip", "lower", "upper", "swapcase", "translate")
+
+
+def _entry_verdict(el, is_input, added):
+    """R07.entry: one element of the list handed to the allocation as dtype.  A retained field keeps its type, byte order and
+    sub-array shape exactly when the entry is the field's own record in the dtype.  (True, '') the entry is an unmodified entry
+    of an input's dtype.descr (or of the added descriptor), or (name, dtype[name]) / (name, dtype.fields[name][0]);
+    (False, why) the entry is rebuilt from something that does not carry that record for every array: a field VIEW arr[name]
+    (its .dtype is the element type without the sub-array shape; its .shape is the array's shape followed by the sub-array
+    shape, so a fixed slice of it is the sub-array shape for one dimensionality only), a descr entry cut to (name, type), or a
+    type whose byte-order character is edited; (None, what) anything else"""
+    def good_F(F):
+        return isinstance(F, tuple) and len(F) == 2 and (F[0] == "DT" and is_input(F[1]) or F in added)
+
+    def view(t):
+        """arr[<name>]: a field view of an input array (an integer subscript is a record, not a field)"""
+        return isinstance(t, tuple) and len(t) == 3 and t[0] == "ITEM" and isinstance(t[1], tuple) and is_input(t[1]) and \
+            not (t[2][0] == "C" and not isinstance(t[2][1], (str, bytes))) and t[2][0] not in ("IDX", "IDXOF")
+    if not isinstance(el, tuple) or not el:
+        return None, _show(el)
+    if el[0] == "ENTRY":
+        return (True, "") if good_F(el[1]) else (None, "an entry of %s" % _show(el[1]))
+    if el[0] == "SLICE" and el[1][0] == "ENTRY" and el[2].replace(" ", "") in (":2", "0:2", ":-1"):
+        return False, "`%s` cuts the descr entry to (name, type): the sub-array shape of the field is dropped" % _show(el)
+    for x in _subterms(el):
+        if isinstance(x, tuple) and len(x) == 4 and x[0] == "MCALL" and (x[1] == "newbyteorder" or x[1] in _STR_EDITS and
+                                any(y[0] == "ENTRY" or (y[0] == "ATTR" and y[-1] in ("str", "byteorder")) for y in _subterms(x[2]) if isinstance(y, tuple) and y)):
+            return False, "`%s` edits the type of the field (.%s()): the byte order / type of a retained field is not the input's" % (_show(el), x[1])
+    if el[0] != "TUPLE" or len(el) < 3:
+        return None, _show(el)
+    comps = el[1:]
+    subs = [x for c in comps[1:] for x in _subterms(c) if isinstance(x, tuple) and x and isinstance(x[0], str)]
+    for x in subs:
+        if x[0] == "SHAPE" and view(x[1]):
+            whole = any(c == x for c in comps[1:])
+            cut = [c for c in subs if c[0] in ("SLICE", "ITEM") and len(c) == 3 and c[1] == x]
+            const = [c for c in cut if c[0] == "ITEM" and c[2][0] == "C" or c[0] == "SLICE" and set(c[2]) <= _CONST_SLICE]
+            if whole or const:
+                return False, ("`%s`: the shape component is %s of the field view %s, which is the ARRAY's shape followed by the field's sub-array shape; "
+                               "it is the sub-array shape for one array dimensionality only (0-d / 2-d arrays get a different field shape)"
+                               % (_show(el), "the shape" if whole else "a fixed slice `[%s]`" % _show(const[0][2]), _show(x[1])))
+            return None, _show(el)
+    if len(comps) == 2:
+        name, ty = comps
+        for x in [ty] + [y for y in _subterms(ty) if isinstance(y, tuple) and y]:
+            if x[0] == "DT" and view(x[1]):
+                return False, ("`%s`: the type is taken from the field view %s, whose dtype is the element type WITHOUT the field's sub-array shape "
+                               "(and the entry has no shape component): sub-array fields lose their shape" % (_show(el), _show(x[1])))
+        if ty[0] == "ITEM" and ty[1][0] == "ENTRY" and ty[2] == ("C", 1):
+            return False, "`%s` keeps only (name, type) of the descr entry: the sub-array shape of the field (the entry's third component) is dropped" % _show(el)
+        # (name, dtype[name]) / (name, dtype.fields[name][0]): the field's own dtype, sub-array shape and byte order included
+        key = ty[2] if ty[0] == "ITEM" and good_F(ty[1]) else \
+            (ty[1][2] if ty[0] == "ITEM" and ty[2] == ("C", 0) and ty[1][0] == "ITEM" and ty[1][1][0] == "FIELDS" and good_F(ty[1][1][1]) else None)
+        if key is not None and key == name:
+            return True, ""
+    return None, _show(el)
+
+
 def common(chk, repo, eng, fi):
     q = fi.qualname
     it = interp(repo, fi)
@@ -1367,14 +1428,24 @@ def common(chk, repo, eng, fi):
                                                                              "a result built from .size (or anything else) is not the same shape for 0-d/2-d inputs"))
         chk.ob("R07.alloc", q + "::zero-filled", ALLOCATORS[z.d["fn"]], _where(fi, z), "new fields start zero-filled (allocated with %s)" % z.d["fn"])
     tags_ = [z.d["tag"] for z in allocs]
-    # (d) data copied by copy_fields(input, new) after the allocation
-    cps = _copies(it)
-    chk.ob("R07.copy", q + "::copy-call-present", _tri(len(cps) >= 1, it.failed is None), fi.where(), "data are copied with copy_fields (or field by field, by name, for every field)")
 
     def is_input(t):
         if combine_:
             return (t[0] == "ELEM" and (t[1] == arrlist or t[1][0] == "SLICE" and t[1][1] == arrlist)) or (t[0] == "ITEM" and t[1] == arrlist)
         return t == inputs[0]
+    # (b) every entry of the new descriptor carries the field's type, byte order and sub-array shape as the dtype records them
+    added = [("NPDT", ("P", p)) for p in fi.params[1:]]
+    for z in allocs[:1]:
+        segs = z.d["segs"]
+        vs = [_entry_verdict(sg.elem, is_input, added) for sg in segs] if segs else [(None, "the new descr is not a list built here")]
+        badv = [why for v, why in vs if v is False]
+        ok = False if badv else (True if all(v is True for v, _ in vs) and it.failed is None else None)
+        chk.ob("R07.entry", q + "::entries-carry-type-and-subshape", ok, _where(fi, z),
+               "every entry of the new descr is the field's own record in the dtype (the unmodified descr entry, or (name, dtype[name])): same type, "
+               "byte order and sub-array shape for arrays of every dimensionality%s" % (": " + badv[0] if badv else ("" if ok else " (not recognised: %s)" % [w for v, w in vs if v is None][:1])))
+    # (d) data copied by copy_fields(input, new) after the allocation
+    cps = _copies(it)
+    chk.ob("R07.copy", q + "::copy-call-present", _tri(len(cps) >= 1, it.failed is None), fi.where(), "data are copied with copy_fields (or field by field, by name, for every field)")
     for c in cps:
         a0, a1 = c.d.get("a_arr1"), c.d.get("a_arr2")
         chk.ob("R07.copy", q + "::copy-roles", is_input(a0) and a1 in tags_, _where(fi, c),
@@ -1949,6 +2020,43 @@ def reorder(chk, repo, fi, it, alloc):
     chk.ob("R07.reject", q + "::missing-name-strict", _missing_strict(it, fi, F, onames), fi.where(), "strict mode rejects a requested name that is not a field")
 
 
+def _compared_quantity(g, arrlist, e):
+    """the guard says `Q(a) != Q(b)` for two different arrays a, b of the list, one of them the array visited by a loop over the list
+    that encloses the raise e: ('shape', text) Q is .shape; ('weak', text) Q is a quantity that arrays of different length can share
+    (.size, .ndim, .nbytes, one axis other than the first, the length of a flattened copy); ('other', text) a quantity that is not
+    classified (len(), shape[0], ...); None: the guard is not such a comparison"""
+    c = g.cond
+    if c[0] != "EQ" or g.pol or not isinstance(c[1], tuple) or not isinstance(c[2], tuple):
+        return None
+
+    def arrays(t):
+        out = []
+        for x in _subterms(t):
+            if isinstance(x, tuple) and len(x) == 3 and (x[0] == "ELEM" and (x[1] == arrlist or x[1][0] == "SLICE" and x[1][1] == arrlist) or
+                                                         x[0] == "ITEM" and x[1] == arrlist and _const_int(x[2]) is not None) and x not in out:
+                out.append(x)
+        return out
+    xa, xb = arrays(c[1]), arrays(c[2])
+    if len(xa) != 1 or len(xb) != 1 or xa[0] == xb[0]:
+        return None
+    a, b = xa[0], xb[0]
+    if not any(x[0] == "ELEM" and any(lp.id == x[2] and not lp.broken for lp in e.loops) for x in (a, b)):
+        return None
+    hole = ("ARR",)
+    qa, qb = _subst(c[1], a, hole), _subst(c[2], b, hole)
+    if qa != qb:
+        return None
+    text = _show(qa).replace("ARR()", "<array>")
+    if qa == ("SHAPE", hole):
+        return "shape", text
+    flat = qa[0] == "LEN" and qa[1][0] == "MCALL" and qa[1][1] in ("ravel", "flatten") and qa[1][2] == hole
+    prod = qa[0] in ("CALL", "MCALL") and qa[1] in ("prod", "product") and ("SHAPE", hole) in list(_subterms(qa))
+    axis = qa[0] == "ITEM" and qa[1] == ("SHAPE", hole) and _const_int(qa[2]) not in (None, 0)
+    if qa == ("SIZE", hole) or qa in (("ATTR", hole, "ndim"), ("ATTR", hole, "nbytes"), ("ATTR", hole, "itemsize")) or flat or prod or axis:
+        return "weak", text
+    return "other", text
+
+
 def combine(chk, repo, fi, it, alloc):
     q = fi.qualname
     arrlist = ("P", fi.params[0])
@@ -1956,15 +2064,27 @@ def combine(chk, repo, fi, it, alloc):
     chk.ob("R07.reject", q + "::empty-list", any(_g(e, lambda g: g.cond == ("TRUE", arrlist) and not g.pol) for e in rs), fi.where(), "an empty list is rejected")
 
     def mismatch(e):
-        for g in e.guards:
-            c = g.cond
-            if c[0] == "EQ" and not g.pol and c[1][0] == c[2][0] and c[1][0] in ("SHAPE", "SIZE"):
-                a, b = c[1][1], c[2][1]
-                for x, y in ((a, b), (b, a)):
-                    if x[0] == "ELEM" and x[1] == arrlist and any(lp.id == x[2] and not lp.broken for lp in e.loops) and y == ("ITEM", arrlist, ("C", 0)):
-                        return True
-        return False
+        """a raise under `<array of the loop over the list>.shape != <another array of the list>.shape`"""
+        return any((_compared_quantity(g, arrlist, e) or ("",))[0] == "shape" for g in e.guards)
     chk.ob("R07.reject", q + "::length-mismatch", any(mismatch(e) for e in rs), fi.where(), "arrays of different length/shape are rejected")
+    # R07.samelen: WHAT the rejection compares.  Arrays of different length must be rejected, and the result has the shape of one of
+    # them: the test has to compare a quantity that determines the length, i.e. the arrays' .shape.  Equal .size (or ndim, or the last
+    # axis) does not: shapes (n,) and (1, n), or () and (1,), agree on it and broadcast into each other, so they are silently combined
+    # (size equality is what copy_fields enforces anyway).
+    found = []
+    for e in rs:
+        for g in e.guards:
+            k = _compared_quantity(g, arrlist, e)
+            if k is not None:
+                found.append((k, e))
+    strong = [e for k, e in found if k[0] == "shape"]
+    weak = [(k, e) for k, e in found if k[0] == "weak"]
+    ok = True if strong else (False if weak else None)
+    chk.ob("R07.samelen", q + "::rejection-compares-shape", ok, _where(fi, (strong or [e for _, e in weak] or [None])[0]),
+           "the rejection of arrays of different length compares the arrays' .shape%s"
+           % ("" if ok else (": it compares `%s`, which is equal for arrays of different length (shapes (n,) and (1, n); () and (1,)), so those are combined "
+                             "instead of rejected" % weak[0][0][1] if weak else " (no comparison of two arrays of the list that controls a raise was recognised%s)"
+                             % (": " + it.failed if it.failed else ""))))
     segs = alloc.d["segs"] if alloc is not None else None
     ok = None
     if segs is not None:
